@@ -295,8 +295,8 @@ func run(c Case) (pbt.Outcome, error) {
 		commonWant[string(k)] = string(v)
 	}
 	for si, s := range sinks[:judged] {
-		if !s.WaitCount(nb, 5*time.Second) {
-			errs.Addf("destination %d: Close returned after %d batches were emitted but only %d datagrams arrived within 5s", si, nb, s.Count())
+		if !s.WaitAll(nb) {
+			errs.Addf("destination %d: Close returned after %d batches were emitted but only %d datagrams arrived within 30s", si, nb, s.Count())
 		}
 		gotCount := map[string]int{}
 		type bucketSeen struct{ id, rng string }
